@@ -22,6 +22,21 @@ def site(E):
     return E.opaque("addr", "str"), G(E), E.opaque("site_args", "tuple")
 
 
+def spy_site_key(E, h):
+    """the keys the handler hands to the sites it visits, OBSERVED at the real fresh_key_and_increment (however the handler
+    derives them: the step obligations do not mention the derivation scheme; that the keys of different sites are independent
+    and derive from the caller's key is the subject of the static.keys.* tasks)"""
+    fv = E.I.getattr(h, "fresh_key_and_increment").func
+    seen = []
+
+    def spy(I, self_):
+        r = I.call_function(fv, [self_], {}, no_override=True)
+        seen.append(r)
+        return r
+    E.I.overrides[f"{fv.module.name}:{fv.name}"] = spy
+    return seen
+
+
 def arbitrary_state(E, h, with_key=True):
     """overwrite the freshly initialised handler state by an arbitrary reachable one"""
     SL = E.I.SL
@@ -29,7 +44,6 @@ def arbitrary_state(E, h, with_key=True):
     sites = SL.fresh_sites("traces")
     h.fields["traces"] = sites
     if with_key:
-        init_ok = init_ok and h.fields["key_counter"] == 1
         c = E.int("key_counter", conc=True)
         E.assume(c.t >= 1)
         h.fields["key_counter"] = c
@@ -57,20 +71,18 @@ def t_sim(E):
     k = key(E)
     h = E.I.call(E.cls(S_ + "SimulateHandler"), [k], {})
     sites, c, init_ok = arbitrary_state(E, h)
-    E.prove("C04.SimulateHandler.init.counter_starts_at_1_and_no_sites", init_ok)
+    E.prove("C04.SimulateHandler.init.no_sites", init_ok)
     before = sites.copy()
     addr, g, a = site(E)
-    fold = E.ctx.fn("fold_in", U, z3.IntSort(), U)
-    sub = fold(k.t, c.t)
-    tr = T.sim(g.t, sub, a.t)
+    seen = spy_site_key(E, h)
     got = E.attempt(lambda: E.method(h, "handle_trace", addr, g, a))
     E.cover("static.step.simulate.reached")
+    if got[0] != "raise":
+        E.require("C04.SimulateHandler.handle_trace.hands_one_fresh_key_to_the_site", len(seen) == 1)
+    tr = T.sim(g.t, E.I.to_u(seen[-1]), a.t) if seen else None       # the callee simulated with the key the site was handed
     if record_clauses(E, "C22", "SimulateHandler", before, h, addr, tr, got):
-        E.prove("C04.SimulateHandler.handle_trace.site_key_is_fold_in_of_counter_and_counter_increases",
-                E.eq(h.fields["key_counter"], SInt(c.t + 1, True)))
-        E.prove("C04.SimulateHandler.handle_trace.handler_key_unchanged", E.eq(h.fields["key"], k))
         E.prove("C01.SimulateHandler.handle_trace.returns_site_retval", E.eq(got[1], UVal(T.tr_retval(tr))))
-        E.refutable("static.step.simulate", E.eq(h.fields["key_counter"], c))
+        E.refutable("static.step.simulate", T.tr_score(tr) == 0)
 
 
 def _two_sites(E, cls, fname, extra_args):
@@ -81,7 +93,7 @@ def _two_sites(E, cls, fname, extra_args):
     from theory import keys as K
     z3, T, I = E.z3, E.I.T, E.I
     k = key(E)
-    h = E.I.call(E.cls(S_ + cls), [k] + extra_args, {})
+    h = E.I.call(E.cls(S_ + cls), [k] + (extra_args(E) if callable(extra_args) else extra_args), {})
     sites, c, init_ok = arbitrary_state(E, h)
     hk = key(E, "handler_key_now")
     depth = K._fns(I)[0]
@@ -90,6 +102,11 @@ def _two_sites(E, cls, fname, extra_args):
     h.fields["key"] = hk
     (ad1, g1, a1), (ad2, g2, a2) = site(E), site(E)
     E.assume(ad1.t != ad2.t)
+    prev_sites = getattr(E, "_prev_sites", None)
+    if prev_sites is not None:          # an edit handler: both sites have a previous sub-trace of their callee, arguments are argdiffs
+        for ad_, g_, a_ in ((ad1, g1, a1), (ad2, g2, a2)):
+            T.trace_facts(z3.Select(prev_sites.val, ad_.t), g=g_.t)
+            E.assume(T.d_is_tree(a_.t))
     st1, _ = E.attempt(lambda: E.method(h, "handle_trace", ad1, g1, a1))
     if st1 != "ok":
         return
@@ -164,14 +181,15 @@ def t_generate(E):
     h.fields["weight"] = w0
     before = sites.copy()
     addr, g, a = site(E)
-    fold = E.ctx.fn("fold_in", U, z3.IntSort(), U)
     sub_c = T.chm_inner(cn.t, addr.t)
-    tr = T.gen_tr(g.t, fold(k.t, c.t), sub_c, a.t)
+    seen = spy_site_key(E, h)
     got = E.attempt(lambda: E.method(h, "handle_trace", addr, g, a))
+    if got[0] != "raise":
+        E.require("C04.GenerateHandler.handle_trace.hands_one_fresh_key_to_the_site", len(seen) == 1)
+    tr = T.gen_tr(g.t, E.I.to_u(seen[-1]), sub_c, a.t) if seen else None
     if record_clauses(E, "C22", "GenerateHandler", before, h, addr, tr, got):
         E.prove("C03.GenerateHandler.handle_trace.site_gets_its_subconstraint_and_weight_accumulates",
                 E.eq(h.fields["weight"], SReal(w0.t + T.cdens(tr, sub_c))))
-        E.prove("C04.GenerateHandler.handle_trace.counter_increases", E.eq(h.fields["key_counter"], SInt(c.t + 1, True)))
         E.prove("C03.GenerateHandler.handle_trace.returns_site_retval", E.eq(got[1], UVal(T.tr_retval(tr))))
         E.prove("C03.GenerateHandler.handle_trace.site_agrees_with_subconstraint", T.agrees(T.tr_choices(tr), sub_c))
         E.refutable("static.step.generate", E.eq(h.fields["weight"], w0))
@@ -223,7 +241,7 @@ def _edit_step(kind, structured=False):
             what = E.opaque("selection", "Selection")
             h = E.I.call(E.cls(S_ + cls), [k, prev, what, E.new(REQ + ":Regenerate", selection=what)], {})
         sites, c, init_ok = arbitrary_state(E, h)
-        E.prove(f"C05.{cls}.init.weight_0_counter_1_no_sites", E.And(init_ok, E.eq(h.fields["weight"], 0.0)))
+        E.prove(f"C05.{cls}.init.weight_0_no_sites", E.And(init_ok, E.eq(h.fields["weight"], 0.0)))
         w0 = E.real("weight_so_far")
         h.fields["weight"] = w0
         bkey = "bwd_constraints" if kind == "update" else "bwd_requests"
@@ -233,12 +251,13 @@ def _edit_step(kind, structured=False):
         has_prev = z3.Select(prev_sites.has, addr.t)
         sub_old = UVal(z3.Select(prev_sites.val, addr.t), "Trace")
         T.trace_facts(sub_old.t, g=g.t)                      # the previous site trace is a well-formed trace of G
-        fold = E.ctx.fn("fold_in", U, z3.IntSort(), U)
-        sub_key = fold(k.t, c.t)
+        seen = spy_site_key(E, h)
         got = E.attempt(lambda: E.method(h, "handle_trace", addr, g, a_call))
         if got[0] == "raise" and got[1].kind == "KeyError":
             E.prove(f"C05.{cls}.handle_trace.KeyError_only_when_site_is_new", z3.Not(has_prev))
             return
+        E.require(f"C04.{cls}.handle_trace.hands_one_fresh_key_to_the_site", len(seen) == 1)
+        sub_key = E.I.to_u(seen[-1])          # the key the site was handed, however the handler derives it (static.keys.*)
         # which request reaches the site
         if kind == "update":
             req = update(E, UVal(T.chm_inner(what.t, addr.t), "ChoiceMap"))
@@ -254,8 +273,7 @@ def _edit_step(kind, structured=False):
             if record_clauses(E, "C22", cls, before, h, addr, tr, got):
                 pid = "C05" if kind == "update" else "C07"
                 E.prove(f"{pid}.{cls}.handle_trace.site_request_key_and_weight", E.And(
-                    E.eq(h.fields["weight"], SReal(w0.t + w)), E.eq(h.fields["key_counter"], SInt(c.t + 1, True)),
-                    E.eq(got[1], UVal(rd, "retdiff"))))
+                    E.eq(h.fields["weight"], SReal(w0.t + w)), E.eq(got[1], UVal(rd, "retdiff"))))
                 bw = T.edit_bwd(g.t, sub_key, sub_old.t, rq, a.t)
                 new_b = h.fields[bkey]
                 want_b = UVal(E.ctx.fn("update_bwd_constraint", U, U)(bw), "ChoiceMap") if kind == "update" else UVal(bw, "EditRequest")
@@ -271,11 +289,6 @@ def _edit_step(kind, structured=False):
                 return
             er = E.new(REQ + ":EmptyRequest")
             sub_req = UVal(z3.Select(what.val, addr.t), "EditRequest")
-            edit_f = E.ctx.fn("EditRequest.edit", U, U, U, U, U)
-            res_addr = edit_f(sub_req.t, sub_key, sub_old.t, a.t)
-            res_empty = E.I.to_u(tuple(E.method(er, "edit", UVal(sub_key, "key"), sub_old, a_call)))
-            E.prove("C38.StaticEditRequestHandler.handle_trace.addressed_site_gets_its_subrequest_others_EmptyRequest",
-                    E.Implies(z3.Not(z3.Select(before.has, addr.t)), E.eq(h.fields["key_counter"], SInt(c.t + 1, True))))
             after = h.fields["traces"]
             E.prove("C38.StaticEditRequestHandler.handle_trace.records_exactly_this_site",
                     after.has == z3.Store(before.has, addr.t, True))
@@ -304,6 +317,33 @@ def _edit_step(kind, structured=False):
 for _k in ("update", "static_request", "regenerate"):
     _edit_step(_k)
     _edit_step(_k, structured=True)
+
+
+def _edit_keys(kind, props):
+    """C04 for the edit handlers (a regenerated or newly visited site draws randomness too): two consecutive sites get keys
+    that derive from the caller's key and are independent of each other"""
+    cls = {"update": "UpdateHandler", "static_request": "StaticEditRequestHandler", "regenerate": "RegenerateRequestHandler"}[kind]
+
+    def extra(E):
+        z3 = E.z3
+        prev, prev_sites = previous_trace(E)
+        E._prev_sites = prev_sites
+        if kind == "update":
+            return [prev, chm(E, "constraint")]
+        if kind == "regenerate":
+            what = E.opaque("selection", "Selection")
+            return [prev, what, E.new(REQ + ":Regenerate", selection=what)]
+        return [prev, SymMap(E.ctx.const("addressed_dom", z3.ArraySort(U, z3.BoolSort())),
+                             E.ctx.const("addressed_val", z3.ArraySort(U, U)), "EditRequest", "addressed")]
+
+    @task(f"static.keys.{kind}", props=props, functions=FUNCS)
+    def t(E):
+        _two_sites(E, cls, "gf_edit_tr", extra)
+    return t
+
+
+_edit_keys("update", ["C04", "C05"])
+_edit_keys("regenerate", ["C04", "C07"])
 
 
 def _addr_tasks():
